@@ -25,6 +25,10 @@ func init() {
 			"NOT decided: byte-for-byte equality of consumed and produced streams as a run-time value statement (it follows from fifo-shape + locked for the single-producer/single-consumer roles, which is the argument, not a measurement).",
 		Assumptions: []string{"sync.RWMutex and channel semantics of the Go memory model", "the queue is used only through its methods (fields are unexported)"},
 		Mutants: []Mutant{
+			{ID: "C20-value-receiver", Desc: "Queue.GetDepth takes the queue by value", Rule: "C20/pointer-receivers",
+				Edits: []Edit{{File: "util/queue.go", Old: "func (q *Queue) GetDepth() int {", New: "func (q Queue) GetDepth() int {"}}},
+			{ID: "C20-dequeue-before-error-poll", Desc: "Channel.Read dequeues before polling the error channel and drops the chunk when an error is pending", Rule: "C20/dequeued-returned",
+				Edits: []Edit{{File: "channel/read.go", Old: "func (c *Channel) Read() ([]byte, error) {\n\tselect {\n\tcase err := <-c.Errs:\n\t\treturn nil, err\n\tdefault:\n\t}\n\n\tif c.readLoopExited {\n\t\treturn nil, util.ErrConnectionError\n\t}\n\n\tb := c.Q.Dequeue()\n", New: "func (c *Channel) Read() ([]byte, error) {\n\tb := c.Q.Dequeue()\n\n\tselect {\n\tcase err := <-c.Errs:\n\t\treturn nil, err\n\tdefault:\n\t}\n\n\tif c.readLoopExited {\n\t\treturn nil, util.ErrConnectionError\n\t}\n"}}},
 			{ID: "C20-publish-after-unlock", Desc: "Dequeue publishes the new depth after releasing the lock", Rule: "C20/token",
 				Edits: []Edit{{File: "util/queue.go", Old: "\tq.lock.Lock()\n\tdefer q.lock.Unlock()\n\n\tb := q.queue[0]\n\n\tq.queue = q.queue[1:]\n\tq.depth--\n\n\t<-q.depthChan\n\tq.depthChan <- q.depth\n", New: "\tq.lock.Lock()\n\n\tb := q.queue[0]\n\n\tq.queue = q.queue[1:]\n\tq.depth--\n\tdepth := q.depth\n\n\tq.lock.Unlock()\n\n\t<-q.depthChan\n\tq.depthChan <- depth\n"}}},
 			{ID: "C20-requeue-nolock", Desc: "Requeue without the lock", Rule: "C20/locked",
@@ -58,6 +62,10 @@ func runC20(c *Ctx, r *Report) {
 	importFoundation(c, r, "C20", "transport-pipe")
 	r.Rule("C20/ansi-bounded", "what the read loop strips before queueing cannot span ordinary output: no unbounded repetition of the escape-sequence pattern admits ESC or newline", 1)
 	checkANSIPatternBounded(c, r, "C20/ansi-bounded")
+	r.Rule("C20/dequeued-returned", "Channel.Read / ReadAll hand their caller whatever they took out of the queue on every path", 2)
+	checkDequeuedReturned(c, r, "C20/dequeued-returned")
+	r.Rule("C20/pointer-receivers", "every method of the queue has a pointer receiver (a value receiver copies depth and the slice header before the lock is taken)", 1)
+	checkPointerReceivers(c, r, "C20/pointer-receivers", func(n *types.Named) bool { return n.Obj().Name() == "Queue" })
 	r.Rule("C20/locked", "every access to Queue.queue / Queue.depth holds Queue.lock (write lock for writes)", 15)
 	r.Rule("C20/token", "mailbox is 1-slot and primed once; every receive from it is followed on all paths by exactly one send, with no lock acquisition or other channel operation in between", 3)
 	r.Rule("C20/republish", "every method that changes the list also stores depth and then sends that depth to the mailbox on every path to its return", 4)
